@@ -852,6 +852,49 @@ def degenerate_part(ctx, fails, frames=None):
                                                             "g['A']==0" if pv == 'switch' else ('all' if pv == 1.0 else 'none'), ref[pv]), payload))
 
 
+def rare_outcome_part(ctx, fails):
+    """a rare binary outcome (stratum risks of a few per 10 000) in a large cohort: StochasticTMLE with a saturated outcome model and
+    a valid, non-saturated treatment model must give the treat-all / treat-none values of TimeFixedGFormula at p = 1 / 0 (no
+    prediction of a binary outcome may be moved by an internal bound)"""
+    from zepid.causal.doublyrobust import StochasticTMLE
+    from zepid.causal.gformula import TimeFixedGFormula
+    rows = []
+    for l0 in (0, 1):
+        for a in (0, 1):
+            m = ctx.rng.randint(9000, 12000)
+            ev = ctx.rng.randint(1, 5)
+            rows += [[l0, a, 1.0]] * ev + [[l0, a, 0.0]] * (m - ev)
+    ctx.rng.shuffle(rows)
+    df = pd.DataFrame(rows, columns=['L0', 'A', 'Y'])
+    payload = {'part': 'rare-outcome', 'cells': df.groupby(['L0', 'A'])['Y'].agg(['sum', 'size']).reset_index().values.tolist()}
+    ctx.evaluations += 1
+    ctx.count('rare-outcome cohort rows: %d' % len(df))
+    try:
+        g = TimeFixedGFormula(df, 'A', 'Y')
+        g.outcome_model('A * C(L0)', print_results=False)
+        ref = {}
+        for plan, pv in (('all', 1.0), ('none', 0.0)):
+            g.fit(plan)
+            ref[pv] = float(g.marginal_outcome)
+        got = {}
+        for pv in (1.0, 0.0):
+            t = StochasticTMLE(df, 'A', 'Y')
+            t.exposure_model('1')
+            t.outcome_model('A * C(L0)')
+            t.fit(p=pv, samples=2, seed=5)
+            got[pv] = float(t.marginal_outcome)
+    except Exception as e:   # noqa
+        fails.append((len(df), 'StochasticTMLE.fit.rare-outcome.raises', 'rare-outcome cohort: %s: %s' % (type(e).__name__, str(e)[:120]), payload))
+        return
+    ctx.programs += 1
+    for pv in (1.0, 0.0):
+        ctx.disagreements_checked += 1
+        if not (abs(got[pv] - ref[pv]) <= 1e-6 * ref[pv]):
+            fails.append((len(df), 'StochasticTMLE.fit.rare-outcome.p%g-vs-TimeFixedGFormula' % pv,
+                          'rare binary outcome, saturated outcome model, intercept-only treatment model: StochasticTMLE(p=%g) = %r, '
+                          'TimeFixedGFormula.fit(%r) = %r' % (pv, got[pv], 'all' if pv == 1.0 else 'none', ref[pv]), payload))
+
+
 def run(ctx):
     fails = []
     jobs = []
@@ -867,6 +910,7 @@ def run(ctx):
         jobs.append(bj)
     run_jobs(ctx, fails, jobs)
     degenerate_part(ctx, fails)
+    rare_outcome_part(ctx, fails)
     report(ctx, fails)
 
 
@@ -883,6 +927,10 @@ def report(ctx, fails):
 
 def replay(ctx, payload):
     fails = []
+    if payload.get('part') == 'rare-outcome':
+        rare_outcome_part(ctx, fails)
+        report(ctx, fails)
+        return
     if payload.get('part') == 'degenerate':
         degenerate_part(ctx, fails, [payload['frame']])
         report(ctx, fails)
